@@ -83,8 +83,10 @@ struct AcqCase {
 	assign: Vec<u8>,
 	flavour: Flavour,
 	write: bool,
-	/// every Poisonable reachable through the target was poisoned beforehand (a panic under the target's own guard)
-	poisoned: bool,
+	/// a section of the target ended in a panic beforehand (0 = no): 1 write guard, 2 scoped_lock, 3 scoped_try_lock,
+	/// 4 read guard, 5 scoped_read, 6 scoped_try_read. After an exclusive one every Poisonable reachable through
+	/// the target is poisoned; after a shared one it may be
+	poisoned: u8,
 }
 
 pub fn has_poisonable(s: &Spec) -> bool {
@@ -103,13 +105,21 @@ struct AcqOut {
 	outcome: String,
 }
 
-pub fn run_acq_case(s: &Spec, assign: &[u8], flavour: Flavour, write: bool, poisoned: bool, keep_trace: bool) -> seq::SeqOut<(bool, u32)> {
+pub fn run_acq_case(s: &Spec, assign: &[u8], flavour: Flavour, write: bool, poisoned: u8, keep_trace: bool) -> seq::SeqOut<(bool, u32)> {
 	seq::case(Policy::RP, keep_trace, |w, ctl| {
 		let t = w.build(s).expect("probed");
 		ctl.init(w);
-		if poisoned {
+		if poisoned != 0 {
+			let (pw, pf) = match poisoned {
+				1 => (true, Flavour::Guard),
+				2 => (true, Flavour::ScopedLent),
+				3 => (true, Flavour::ScopedTryOwned),
+				4 => (false, Flavour::Guard),
+				5 => (false, Flavour::ScopedLent),
+				_ => (false, Flavour::ScopedTryLent),
+			};
 			let key = ThreadKey::get().expect("clean thread");
-			let (key, _) = interp::acquire(&t, true, Flavour::Guard, Body::PANIC, key, 99);
+			let (key, _) = interp::acquire(&t, pw, pf, Body::PANIC, key, 99);
 			drop(key);
 		}
 		apply_assignment(ctl, &t.leaves, assign);
@@ -151,9 +161,18 @@ pub fn sweep_acquire(rep: &mut Report, specs: &[Spec], flavours: &[Flavour], pro
 					if !write && !info.sharable {
 						continue;
 					}
-					cases.push(AcqCase { spec: si, assign: a.clone(), flavour: *f, write, poisoned: false });
+					cases.push(AcqCase { spec: si, assign: a.clone(), flavour: *f, write, poisoned: 0 });
 					if has_poisonable(&specs[si]) {
-						cases.push(AcqCase { spec: si, assign: a.clone(), flavour: *f, write, poisoned: true });
+						cases.push(AcqCase { spec: si, assign: a.clone(), flavour: *f, write, poisoned: 1 });
+						// the other ways a section can end in a panic (free and all-read-held patterns only)
+						if a.iter().all(|v| *v == 0) || a.iter().all(|v| *v == 1) {
+							for route in 2..=6u8 {
+								if route >= 4 && !info.sharable {
+									continue;
+								}
+								cases.push(AcqCase { spec: si, assign: a.clone(), flavour: *f, write, poisoned: route });
+							}
+						}
 					}
 				}
 			}
@@ -214,6 +233,9 @@ pub fn check_c04(tier: &str) -> ! {
 	// the concurrent invariant: same oracles at every acquisition return with real concurrent holders
 	let mut crep = Report::new("C04", tier, "model_checking");
 	crate::conc::core_families(&mut crep, tier == "thorough");
+	// all-or-nothing also when a Poisonable's flag changes between two steps of one try (family P: a holder panics
+	// while another thread acquires in every flavour)
+	crate::conc::poison_family_into(&mut crep, tier == "thorough");
 	for k in ["programs", "states", "transitions", "traces_validated_against_impl"] {
 		rep.set(&format!("concurrent_{}", k), crep.get(k));
 	}
@@ -547,12 +569,28 @@ pub fn c08_inputs(thorough: bool) -> Vec<Spec> {
 		}
 	}
 	out.push(Spec::Native(Native::VecsFromRef));
+	for via in 0..3u8 {
+		out.push(Spec::Native(Native::VecsOwnedBoxed(via)));
+	}
 	for via in [1u8, 2] {
 		out.push(Spec::Native(Native::MutRefsVia(1, 3, via)));
 	}
 	for k in [Kind::Boxed, Kind::Ref] {
 		out.push(Spec::Native(Native::VecsNew(k)));
 		out.push(Spec::Native(Native::VecsRefs(k)));
+	}
+	out
+}
+
+/// The order in which the last call took the locks it ended up with: every successful raw acquisition counts,
+/// blocking or not (a lock taken twice counts where it was taken last).
+fn acquired_order(ctl: &SeqCtl) -> Vec<u32> {
+	let all: Vec<u32> = ctl.last_acquired().iter().map(|(l, _)| *l).collect();
+	let mut out: Vec<u32> = vec![];
+	for (i, l) in all.iter().enumerate() {
+		if !all[i + 1..].contains(l) {
+			out.push(*l);
+		}
 	}
 	out
 }
@@ -580,12 +618,27 @@ pub fn check_c08(tier: &str) -> ! {
 					}
 					let (k, _) = interp::acquire(&t, write, Flavour::Guard, Body::NONE, key, 1);
 					key = k;
-					seqs.push((write, ctl.last_acq_seq()));
+					seqs.push((write, acquired_order(ctl)));
 				}
 				if round == 0 {
 					// an unrelated acquisition in between
 					let (k, _) = interp::acquire(&unrelated, true, Flavour::ScopedLent, Body::NONE, key, 1);
 					key = k;
+				}
+			}
+			// the same under contention: one member at a time is write-held by another thread when the call starts
+			// (it is released once the caller blocks); the order in which the caller ends up taking the locks is the same
+			if t.leaves.len() <= 5 {
+				for p in 0..t.leaves.len() {
+					for write in [true, false] {
+						if !write && !t.sharable {
+							continue;
+						}
+						ctl.prehold(t.leaves[p], Mode::Excl);
+						let (k, _) = interp::acquire(&t, write, Flavour::Guard, Body::NONE, key, 1);
+						key = k;
+						seqs.push((write, acquired_order(ctl)));
+					}
 				}
 			}
 			drop(key);
@@ -615,9 +668,9 @@ pub fn check_c08(tier: &str) -> ! {
 					rt::violation("C08", format!("unstable-order|{}", s.shape_key()), format!("{} took its locks as {:?} and later ({}) as {:?}", s.describe(), seqs[0].1, if *w1 { "write" } else { "read" }, s1));
 				}
 			}
-			// a blocking acquisition through a sorting collection uses blocking raw ops for every leaf
+			// the acquisition covers every leaf
 			if seqs[0].1.len() != t.leaves.len() {
-				rt::violation("C08", format!("not-all-blocking|{}", s.shape_key()), format!("{}: blocking sequence {:?} does not cover the leaves {:?}", s.describe(), seqs[0].1, t.leaves));
+				rt::violation("C08", format!("not-all-acquired|{}", s.shape_key()), format!("{}: acquisition sequence {:?} does not cover the leaves {:?}", s.describe(), seqs[0].1, t.leaves));
 			}
 			seqs
 		});
@@ -651,7 +704,7 @@ pub fn check_c08(tier: &str) -> ! {
 					// one shared `[Vec; 2]` data set, whose locks are the same objects at the same relative addresses
 					let class: u8 = if x < ARENA_TOTAL && y < ARENA_TOTAL {
 						0
-					} else if matches!(s, Spec::Native(Native::VecsNew(_) | Native::VecsRefs(_) | Native::VecsFromRef)) {
+					} else if matches!(s, Spec::Native(Native::VecsNew(_) | Native::VecsRefs(_) | Native::VecsFromRef | Native::VecsOwnedBoxed(_))) {
 						1
 					} else {
 						continue;
@@ -680,7 +733,7 @@ pub fn check_c08(tier: &str) -> ! {
 	if let Some(i) = nontrivial.iter().last() {
 		rep.sample(json!({"collection": inputs[*i].describe(), "blocking_acquisition_sequence": outs[*i].seqs.first().map(|s| s.1.clone())}));
 	}
-	rep.set("rule", "every arrangement of every subset (size>=2) of a 5-lock universe for Boxed and Ref collections, plus nested Boxed/Ref/Retrying members at every position, owned groups, poisonable members, native containers; each acquired twice in write and read mode with an unrelated acquisition in between; the sequence of blocking raw acquisitions is extracted from the trace and every pair of locks must have one relative order across ALL sequences. Non-trivial = collections whose listing order differs from the acquisition order");
+	rep.set("rule", "every arrangement of every subset (size>=2) of a 5-lock universe for Boxed and Ref collections, plus nested Boxed/Ref/Retrying members at every position, owned groups, poisonable members, native containers; each acquired twice in write and read mode with an unrelated acquisition in between, and once more per member with that member write-held by another thread when the call starts; the sequence of successful raw acquisitions (blocking or not) is extracted from the trace and every pair of locks must have one relative order across ALL sequences. Non-trivial = collections whose listing order differs from the acquisition order");
 	rep.finish()
 }
 
@@ -894,6 +947,19 @@ pub fn check_c17(tier: &str) -> ! {
 		rep.sample(json!({"spec": specs[c.spec].describe(), "leaf_states": c.assign, "held_by": "another thread, with a writer queued (writer-preferring policy)", "operation": format!("{:?}", c.op), "raw_ops_issued": o.raw_ops}));
 	}
 	owned_accessor_cases(&mut rep);
+	poisoned_accessor_cases(&mut rep);
+	debug_panic_sweep(&mut rep, tier == "thorough", "C17");
+	// concurrent part: Debug while another thread is inside a section of the lock / kills the lock meanwhile, all
+	// interleavings at raw-operation granularity; the caller's held set must be the same before and after the call
+	let mut crep = Report::new("C17", tier, "model_checking");
+	crate::conc::debug_families_into(&mut crep, tier == "thorough");
+	for k in ["programs", "states", "transitions", "traces_validated_against_impl"] {
+		rep.set(&format!("concurrent_{}", k), crep.get(k));
+	}
+	for v in crep.violations.drain(..).chain(crep.xrefs.drain(..)) {
+		rep.violation(v);
+	}
+	rep.machinery.extend(crep.machinery);
 	rep.set("rule", "every catalogue shape x every assignment of {free, read-held, write-held} to its leaves x holder in {another thread (RP; WP with a queued writer), the calling thread through a live guard / inside a running scoped closure / through a leaked guard} x operation in {Debug of the lock or collection, Debug of the live guard, is_poisoned+clear_poison, every checked/unchecked constructor}; plus child/iter/as_ref/get_mut/into_inner/into_child on native shapes. Oracle: no blocking raw-op kind is issued, the call returns, owner table unchanged. Non-trivial = the operation issued raw operations while some leaf was held");
 	rep.finish()
 }
@@ -1061,6 +1127,238 @@ fn owned_accessor_cases(rep: &mut Report) {
 		}
 	}
 	let _ = (M0, PR0);
+}
+
+/// get_mut / child_mut / into_inner / into_child / poison queries / Debug on a Poisonable that really is
+/// poisoned while its lock is still held: by a foreign thread, or by the caller through a leaked guard
+/// (which ends the borrow, so `&mut` access and consuming calls compile).
+fn poisoned_accessor_cases(rep: &mut Report) {
+	use crate::world::{reg_m, reg_r, M, R};
+	use happylock::collection::{OwnedLockCollection, RetryingLockCollection};
+	use happylock::Poisonable;
+	use std::panic::{catch_unwind, resume_unwind, AssertUnwindSafe};
+	const KINDS: [&str; 4] = ["Poisonable<Mutex>", "Poisonable<RwLock>", "Poisonable<Owned<(Mutex,RwLock)>>", "Poisonable<Retrying<Vec<RwLock>>>"];
+	const HOLDS: [&str; 4] = ["foreign-write", "foreign-read", "self-leaked-write", "self-leaked-read"];
+	const OPS: [&str; 6] = ["get_mut", "child_mut", "into_inner", "into_child", "is_poisoned+clear_poison", "Debug"];
+	let mut cases = vec![];
+	for k in 0..KINDS.len() {
+		for h in 0..HOLDS.len() {
+			if (h == 1 || h == 3) && k != 1 && k != 3 {
+				continue; // shared holds need an all-RwLock target
+			}
+			for o in 0..OPS.len() {
+				cases.push((k, h, o));
+			}
+		}
+	}
+	let outs = par_cases(&cases, |_, &(k, h, o)| {
+		seq::case(Policy::WP, false, |w, ctl| {
+			let mut is_rw = w.is_rw.borrow().clone();
+			while is_rw.len() < 48 {
+				is_rw.push(true);
+			}
+			is_rw[44] = false;
+			*w.is_rw.borrow_mut() = is_rw;
+			let mut unit = w.unit.borrow().clone();
+			unit.resize(48, 0);
+			*w.unit.borrow_mut() = unit;
+			ctl.init(w);
+			macro_rules! go {
+				($p:expr, $leaves:expr) => {{
+					let mut p = $p;
+					let leaves: Vec<u32> = $leaves;
+					// poison it for real: a guard dropped by a panic
+					let key = ThreadKey::get().expect("clean");
+					rt::begin_call(CallKind::Acquire, false, "poison-setup".into());
+					let r = catch_unwind(AssertUnwindSafe(|| {
+						let _g = p.lock(key);
+						resume_unwind(Box::new(rt::UserPanic(7777)));
+					}));
+					rt::end_call();
+					assert!(r.is_err());
+					// (whether the flag really is set is C10's business; nothing below depends on it)
+					match h {
+						0 => leaves.iter().for_each(|l| ctl.prehold(*l, Mode::Excl)),
+						1 => leaves.iter().for_each(|l| {
+							ctl.prehold(*l, Mode::Shared);
+							ctl.queue_writer(*l);
+						}),
+						_ => {
+							let key = ThreadKey::get().expect("clean");
+							rt::begin_call(CallKind::Acquire, false, "holder".into());
+							if h == 2 {
+								std::mem::forget(p.lock(key));
+							} else {
+								p.read_dyn(key);
+							}
+							rt::end_call();
+						}
+					}
+					let before = ctl.table_fp();
+					ctl.arm_counting();
+					rt::begin_call(CallKind::NonAcquiring, false, format!("{}::{} (poisoned, {})", KINDS[k], OPS[o], HOLDS[h]));
+					match o {
+						0 => drop(p.get_mut().is_err()),
+						1 => drop(p.child_mut().is_err()),
+						2 => std::mem::forget(p.into_inner()),
+						3 => std::mem::forget(p.into_child()),
+						4 => {
+							let _ = p.is_poisoned();
+							p.clear_poison();
+							let _ = p.is_poisoned();
+							std::mem::forget(p);
+						}
+						_ => {
+							assert!(!format!("{:?}", p).is_empty());
+							std::mem::forget(p);
+						}
+					}
+					rt::end_call();
+					let n = ctl.disarm();
+					if ctl.table_fp() != before {
+						rt::violation("C17", format!("nonacq-disturbs|{}::{}", KINDS[k], OPS[o]), format!("{} on a poisoned {} ({}) changed the hold state: {}", OPS[o], KINDS[k], HOLDS[h], ctl.table_string()));
+					}
+					n
+				}};
+			}
+			trait ReadDyn {
+				fn read_dyn(&self, key: ThreadKey);
+			}
+			impl ReadDyn for Poisonable<R> {
+				fn read_dyn(&self, key: ThreadKey) {
+					std::mem::forget(self.read(key));
+				}
+			}
+			impl ReadDyn for Poisonable<RetryingLockCollection<Vec<R>>> {
+				fn read_dyn(&self, key: ThreadKey) {
+					std::mem::forget(self.read(key));
+				}
+			}
+			impl ReadDyn for Poisonable<M> {
+				fn read_dyn(&self, _: ThreadKey) {
+					unreachable!()
+				}
+			}
+			impl ReadDyn for Poisonable<OwnedLockCollection<(M, R)>> {
+				fn read_dyn(&self, _: ThreadKey) {
+					unreachable!()
+				}
+			}
+			match k {
+				0 => go!(Poisonable::new(reg_m(44)), vec![44]),
+				1 => go!(Poisonable::new(reg_r(40)), vec![40]),
+				2 => go!(Poisonable::new(OwnedLockCollection::new((reg_m(44), reg_r(41)))), vec![44, 41]),
+				_ => go!(Poisonable::new(RetryingLockCollection::new(vec![reg_r(42), reg_r(43)])), vec![42, 43]),
+			}
+		})
+	});
+	for (&(k, h, o), out) in cases.iter().zip(outs) {
+		rep.add("evaluations", 1);
+		rep.add("poisoned_accessor_cases", 1);
+		if out.value.unwrap_or(0) > 0 {
+			rep.add("poisoned_accessor_cases_issuing_raw_ops", 1);
+		}
+		let replay = json!({"kind": "seq-poisoned-accessors", "target": KINDS[k], "hold": HOLDS[h], "op": OPS[o]});
+		for v in &out.violations {
+			viol_to(rep, v, replay.clone());
+		}
+		if out.outcome != "ok" {
+			rep.violation(Viol { prop: "C17".into(), key: format!("nonacq-{}|{}::{}", out.outcome.split(':').next().unwrap(), KINDS[k], OPS[o]), detail: format!("{} on a poisoned {} ({}) ended with {}", OPS[o], KINDS[k], HOLDS[h], out.outcome), replay });
+		}
+	}
+}
+
+// ------------------------------------------------------------------------------------------
+// User code inside Debug: the payload's own `fmt` panics while a lock / collection / guard is being formatted
+// (C11: a panic in user code never leaks a lock; C17: Debug leaves the hold state as it found it)
+// ------------------------------------------------------------------------------------------
+
+pub fn debug_panic_sweep(rep: &mut Report, thorough: bool, prop: &'static str) {
+	let mut specs = vec![Spec::R(0), Spec::M(0), Spec::PR(0), Spec::PM(0), Spec::OW(0), Spec::PPR];
+	for k in KINDS {
+		specs.push(Spec::Coll(k, vec![Spec::R(1), Spec::R(0)]));
+		specs.push(Spec::Coll(k, vec![Spec::M(0), Spec::R(0)]));
+		specs.push(Spec::Pois(Box::new(Spec::Coll(k, vec![Spec::R(1), Spec::R(0)]))));
+		if thorough {
+			specs.push(Spec::Coll(k, vec![Spec::Coll(Kind::Retry, vec![Spec::R(2), Spec::R(0)]), Spec::R(1)]));
+			specs.push(Spec::Coll(k, vec![Spec::PR(0), Spec::R(1), Spec::OW(0)]));
+		}
+	}
+	specs.push(Spec::Native(Native::OwnedTupMR));
+	specs.push(Spec::Native(Native::RetryOwnedR(2)));
+	specs.push(Spec::Native(Native::PoisOwned(2)));
+	// who holds what while the formatting panics: 0 nothing, 1 another thread read-holds every rwlock leaf (a writer is
+	// queued too under WP), 2 the caller's own read guard of the target is alive (and is formatted as well), 3 the
+	// caller's own write guard is alive
+	let mut cases = vec![];
+	for (si, s) in specs.iter().enumerate() {
+		for hold in 0..4u8 {
+			if hold == 2 && !s.sharable() {
+				continue;
+			}
+			cases.push((si, hold));
+		}
+	}
+	let outs = par_cases(&cases, |_, &(si, hold)| {
+		let s = &specs[si];
+		seq::case(if hold == 1 { Policy::WP } else { Policy::RP }, false, |w, ctl| {
+			let t = w.build(s).expect("duplicate-free");
+			ctl.init(w);
+			if hold == 1 {
+				let is_rw = w.is_rw.borrow().clone();
+				for l in &t.leaves {
+					if is_rw[*l as usize] {
+						ctl.prehold(*l, Mode::Shared);
+					}
+				}
+			}
+			let guard = match hold {
+				2 => Some(t.coll.read(ThreadKey::get().expect("clean"))),
+				3 => Some(t.coll.lock(ThreadKey::get().expect("clean"))),
+				_ => None,
+			};
+			let before = ctl.table_fp();
+			let what = format!("{}::Debug (payload fmt panics) #{}", t.shape, t.desc);
+			rt::begin_call(CallKind::NonAcquiring, false, what.clone());
+			crate::world::FMT_PANIC.with(|p| p.set(true));
+			let r = std::panic::catch_unwind(std::panic::AssertUnwindSafe(|| t.coll.debug()));
+			let r2 = guard.as_ref().map(|g| std::panic::catch_unwind(std::panic::AssertUnwindSafe(|| g.debug())));
+			crate::world::FMT_PANIC.with(|p| p.set(false));
+			rt::end_call();
+			for r in [Some(r), r2].into_iter().flatten() {
+				if let Err(p) = r {
+					if p.downcast_ref::<rt::UserPanic>().is_none() {
+						rt::violation(prop, format!("debug-panic-replaced|{}", s.shape_key()), format!("`{}`: the payload's panic was replaced by {}", what, rt::classify_panic(&p)));
+					}
+				}
+			}
+			if ctl.table_fp() != before {
+				rt::violation(prop, format!("debug-panic-leaks|{}", s.shape_key()), format!("after the payload's fmt panicked inside `{}` (holder pattern {}) the hold state changed to: {}", what, hold, ctl.table_string()));
+			}
+			if let Some(g) = guard {
+				drop(g);
+				let held = ctl.exec.lock().held(0);
+				if !held.is_empty() {
+					rt::violation(prop, format!("debug-panic-leaks|{}", s.shape_key()), format!("after `{}` and dropping the caller's guard the caller still holds {:?}", what, held));
+				}
+			}
+			if !seq::key_clean() {
+				rt::violation(prop, format!("debug-panic-key-lost|{}", s.shape_key()), format!("after `{}` the thread's key is not obtainable", what));
+			}
+		})
+	});
+	for (&(si, hold), o) in cases.iter().zip(&outs) {
+		rep.add("debug_with_panicking_payload_cases", 1);
+		let replay = json!({"kind": "seq-debug-panic", "spec": specs[si], "holder_pattern": hold});
+		for v in &o.violations {
+			if v.prop == prop {
+				viol_to(rep, v, replay.clone());
+			}
+		}
+		if o.outcome != "ok" {
+			rep.violation(Viol { prop: prop.into(), key: format!("debug-panic-{}|{}", o.outcome.split(':').next().unwrap(), specs[si].shape_key()), detail: format!("Debug with a panicking payload on {} (holder pattern {}) ended with {}", specs[si].describe(), hold, o.outcome), replay });
+		}
+	}
 }
 
 // ------------------------------------------------------------------------------------------
